@@ -252,7 +252,7 @@ def check_envelopes(ck, rule, prog, builders):
                         for (_tr, out) in res:
                             n += 1
                             _cmp(ck, rule, fi, "error[version=%r,%s]" % (rep, dtag), out,
-                                 spec.ENVELOPES[("error", region)], region, b, dtag)
+                                 spec.ENVELOPES[("error", region)], region, b, dtag, given=dval)
     return n
 
 
@@ -294,6 +294,8 @@ def _cmp(ck, rule, fi, label, out, want, region, builder, dtag=None, given=None)
                 v = e.items.get(k)
                 if not (isinstance(v, shape.Sym) and v.label == k):
                     problems.append("error.%s is %r, not the given %s" % (k, v, k))
+            if "data" in e.items and given is not None and e.items["data"] is not given and not (e.items["data"] == given):
+                problems.append("error.data is %r, not the given data %r" % (e.items["data"], given))
         if region == "v1" and d.get("result") != shape.K(None):
             problems.append("1.0 error must carry \"result\": null")
     if builder in ("request", "notify"):
